@@ -3,7 +3,7 @@ import json, os
 import vlib
 
 THEOREMS = ["Slock.C18.C18_server_survives", "Slock.C18.C18_wills_once", "Slock.C18.C18_no_will_without_close",
-            "Slock.C18.C18_wills_run_at_close", "Slock.C18.C18_close_idempotent", "Slock.C18.C18_registered_spec",
+            "Slock.C18.C18_wills_run_at_close", "Slock.C18.C18_will_outcomes", "Slock.C18.C18_close_idempotent", "Slock.C18.C18_registered_spec",
             "Slock.C18.C18_routing", "Slock.C18.C18_routing_anonymous_dropped", "Slock.C18.C18_routing_will_replies",
             "Slock.C18.C18_routing_follows_adoption", "Slock.C18.C18_holds_survive", "Slock.C18.C18_no_leak",
             "Slock.C18.C18_pending_answerable"]
@@ -91,7 +91,8 @@ def run(ctx):
                                "detail": f"{len(dis)} of the lifetimes disagree; first: {first_divergence(d[1], d[2], d[3])} ops={d[1][:1500]}"})
             ctx.cov.setdefault("disagreements", []).append({"op": d[1], "impl": d[2], "model": d[3]})
     ctx.cov["rule"] = ("seeded lifetime scripts (random walk: open binary/text, INIT with a fresh / an already announced / the all-zero id, register will "
-                       "LOCK/UNLOCK of four kinds, LOCK on a fresh or a held key, UNLOCK, virtual ticks, close by client EOF / protocol error / server-side "
+                       "LOCK/UNLOCK of eleven kinds (fresh / held / self-held / unheld key, unlock of an own hold or of an earlier will's hold, a repeated will frame, "
+                       "DbId 0xff, a db id never created, a db the will creates; lists of 1..5 and bursts of 7..28 wills), LOCK on a fresh or a held key, UNLOCK, virtual ticks, close by client EOF / protocol error / server-side "
                        "stream.Close(), close again) on up to 6 connections + same-id helper connections, ending with every connection closed, queued "
                        "requests timed out, engine drained, 18 s, census; lifetimes that can hit the Close() recursion run in a child process; "
                        "distinct_nontrivial = distinct scripts in which a will ran, a reply was delivered, or the server died")
